@@ -262,8 +262,8 @@ StringDictionaryRPHTFC::StringDictionaryRPHTFC(IteratorDictString *it,
           codeSubstr = codeSubstr >> (ptrSubstr - TABLEBITSO);
           ptrSubstr = TABLEBITSO;
         } else {
-          if ((bucket == buckets) && (elements % bucketsize == 0)) {
-            // The last element is directly padded
+          if ((bucket == buckets) && (elements % bucketsize == 1)) {
+            // The last header is directly padded (no internal strings follow)
             codeSubstr = (codeSubstr << (TABLEBITSO - ptrSubstr));
             ptrSubstr = TABLEBITSO;
           } else {
@@ -283,7 +283,15 @@ StringDictionaryRPHTFC::StringDictionaryRPHTFC(IteratorDictString *it,
             ptrSubstr = TABLEBITSO;
           }
         }
+
+        builderHT->insertEndingSubstr(&codeSubstr, &ptrSubstr, &textSubstr,
+                                      &lenSubstr);
       }
+
+      // Clearing decodeable substrings
+      textSubstr.clear();
+      lenSubstr.clear();
+      ptrSubstr = 0, codeSubstr = 0;
 
       // Processing the internal strings
       offset = 0;
